@@ -343,9 +343,9 @@ def write_replay(prop, seed, kind, payload):
     return path
 
 
-def write_evidence(prop, tier, seed, wall, cov, assumptions, violations):
+def write_evidence(prop, tier, seed, wall, cov, assumptions, violations, level="proof"):
     os.makedirs(os.path.join(VERIF, "evidence"), exist_ok=True)
-    ev = {"property_id": prop, "tier": tier, "seed": seed, "level": "proof",
+    ev = {"property_id": prop, "tier": tier, "seed": seed, "level": level,
           "coverage": cov, "assumptions": assumptions, "wall_s": round(wall, 2),
           "violations": violations}
     with open(os.path.join(VERIF, "evidence", prop + ".json"), "w") as f:
@@ -414,7 +414,8 @@ def main(prop, module, argv):
     if chk:
         cov["coqchk"] = chk
     cov.update(out.extra)
-    write_evidence(prop, tier, seed, wall, cov, getattr(module, "ASSUMPTIONS", []), nviol)
+    write_evidence(prop, tier, seed, wall, cov, getattr(module, "ASSUMPTIONS", []), nviol,
+                   level=getattr(module, "LEVEL", "proof") if pa["theorems"] else "exploration")
     for l in lines:
         print(l)
     if nviol:
